@@ -25,7 +25,7 @@ def curve_params(p, a, b):
 
 
 @contextlib.contextmanager
-def toy(p, a, b, n, g, toy_hash=False):
+def toy(p, a, b, n, g, toy_hash=False, toy_hmac=False):
     import buidl.pecc as pecc
     import buidl.ecc as ecc
     import buidl.hd as hd
@@ -49,6 +49,9 @@ def toy(p, a, b, n, g, toy_hash=False):
             for tag, name in ((1, "hash_aux"), (2, "hash_nonce"), (3, "hash_challenge")):
                 saved.setdefault((pecc, name), getattr(pecc, name))
                 setattr(pecc, name, (lambda t: (lambda msg: toy_h(t, msg)))(tag))
+        if toy_hmac:
+            saved.setdefault((hd, "hmac_sha512"), hd.hmac_sha512)
+            hd.hmac_sha512 = toy_hmac512
         yield pecc
     finally:
         for (m, name), val in saved.items():
@@ -62,3 +65,17 @@ def toy_h(tag, b):
         w = (w + (i + 1) * x) % 65521
     v = ((37 + 2 * tag) * w + 11 * tag) % 65521
     return v.to_bytes(32, "big")
+
+
+def _wsum(b):
+    w = 0
+    for i, x in enumerate(b):
+        w = (w + (i + 1) * x) % 65521
+    return w
+
+
+def toy_hmac512(key, data):
+    """ToyHmacL / ToyHmacR of specs/bip32/BIP32Toy.tla"""
+    l = (41 * _wsum(key + data) + 3) % 65521
+    r = (43 * _wsum(data + key) + 5) % 65521
+    return l.to_bytes(32, "big") + r.to_bytes(32, "big")
